@@ -132,6 +132,7 @@ def rule_fallback_families(rep: Report, ix, km: ck.KeyModel, ka: ck.KeyAnalysis,
             witnesses.append({"family": root.ref, "reached_via": sorted(set(v for c in members for v in ka.reached.get(c, [])))[:6], "collisions": collisions[:4]})
         # (a3) attributes compared by __eq__ must not be filtered from the instance dict
         if km.filter_prefix:
+            done: set[tuple] = set()
             for c in members:
                 eq = facts.chain(c, "__eq__")
                 if eq is None:
@@ -142,6 +143,10 @@ def rule_fallback_families(rep: Report, ix, km: ck.KeyModel, ka: ck.KeyAnalysis,
                         continue
                     for s in sorted(facts.storage_of(c, a)):
                         hidden = s.startswith(km.filter_prefix) and s in facts.inst_attrs(c)
+                        tag = (tuple(d.ref for d in eq.definers), s)
+                        if tag in done and not hidden:
+                            continue  # same __eq__ chain, same storage: one obligation
+                        done.add(tag)
                         rep.oblige(f"eq-attr-enters-key:{c.name}.{s}", not hidden)
                         if hidden:
                             rep.violation(
